@@ -54,6 +54,10 @@ func (m *Manager) NewConfiguration(opts ...gorums.ConfigOption) (c *Configuratio
 			return nil, fmt.Errorf("config: unknown option type: %v", v)
 		}
 	}
+	// return an error if no node list was provided: a configuration is never empty.
+	if len(c.RawConfiguration) == 0 {
+		return nil, fmt.Errorf("config: missing required node list")
+	}
 	// return an error if the QuorumSpec interface is not empty and no implementation was provided.
 	var test interface{} = struct{}{}
 	if _, empty := test.(QuorumSpec); !empty && c.qspec == nil {
